@@ -181,8 +181,9 @@ func c08ValUnmarked(r *rand.Rand, t cty.Type, depth int, o c08VOpts) cty.Value {
 		return cty.TupleVal(vs)
 	case t.IsObjectType():
 		vs := map[string]cty.Value{}
-		for k, at := range t.AttributeTypes() {
-			vs[k] = c08Val(r, at, depth-1, o)
+		src := t.AttributeTypes()
+		for _, k := range sortedKeys(src) { // sorted: reproducible order of the random draws
+			vs[k] = c08Val(r, src[k], depth-1, o)
 		}
 		return cty.ObjectVal(vs)
 	}
